@@ -48,7 +48,7 @@ LEVEL_NOTE = ("Trusted: numpy matrix arithmetic. Not covered: N beyond the bound
 TOL = 1e-10
 WVLS = [0.5e-6, 1.5e-6]
 D1S = [0.01, 0.05]
-MAGS = [1.0, 0.5, 2.0, 1.3]
+MAGS = [1.0, 0.5, 2.0, 1.3, 1.005, 0.9999]      # incl. magnifications within a percent of 1
 ZS = [100.0, -100.0, 2500.0, -2500.0, 1.0e4]
 FOCALS = [0.1, 2.5, -2.5]
 ZTYPES = ["float", "np"]
@@ -149,6 +149,9 @@ def _scale_and_reuse(o, fn, x):
     inside shows), and a call history on one caller-owned complex128 field (P(x) evaluated, x used again)"""
     from mc import variants
     base = numpy.asarray(fn(x.copy()))
+    zero = numpy.asarray(fn(numpy.zeros_like(x)))
+    o.check("zero_field_gives_zero_field", zero.shape == base.shape and bool(numpy.all(zero == 0)),
+            detail=None if zero.shape == base.shape and numpy.all(zero == 0) else "%d non-zero / non-finite samples" % int(numpy.sum(zero != 0)))
     for s_ in (1e-30, 1e-18, 1e-9, 1e9, 1e30):
         got = numpy.asarray(fn(x * s_))
         o.close("homogeneous_over_amplitude", _maxabs(got / s_ - base) / max(_maxabs(base), 1e-300), TOL, sub="s=%g" % s_)
